@@ -110,8 +110,10 @@ M = [
  ("C04","literal-accepted-for-field-parameter", E+"functions/mod.rs", "        if self == &expected_arg_kind {\n            Ok(())", "        if self == &expected_arg_kind || expected_arg_kind == FunctionArgKind::Literal {\n            Ok(())"),
  ("C04","optional-default-type-not-checked", E+"functions/mod.rs", "            next_param\n                .expect_val_type(once(ExpectedType::Type(opt_param.default_value.get_type())))?;", "            let _ = next_param\n                .expect_val_type(once(ExpectedType::Type(opt_param.default_value.get_type())));"),
  ("C16","identifier-stops-at-second-dot", E+"scheme.rs", "            match expect(input, \".\") {\n                Ok(rest) => input = rest,\n                Err(_) => break,\n            };\n        }\n\n        let name = span(initial_input, input);\n\n        let field = scheme", "            match expect(input, \".\") {\n                Ok(rest) if span(initial_input, rest).matches('.').count() < 3 => input = rest,\n                _ => break,\n            };\n        }\n\n        let name = span(initial_input, input);\n\n        let field = scheme"),
- ("C02","array-extract-off-by-one-at-end", E+"lhs_types/array.rs", "        if idx >= data.len() {\n            None\n        } else {\n            match data {\n                InnerArray::Owned(mut vec) => Some(vec.swap_remove(idx)),", "        if idx >= data.len() {\n            None\n        } else {\n            match data {\n                InnerArray::Owned(mut vec) => Some(vec.swap_remove(if idx + 1 == vec.len() && idx > 2 { idx - 1 } else { idx })),"),
+ ("C03","array-extract-off-by-one-at-end", E+"lhs_types/array.rs", "        if idx >= data.len() {\n            None\n        } else {\n            match data {\n                InnerArray::Owned(mut vec) => Some(vec.swap_remove(idx)),", "        if idx >= data.len() {\n            None\n        } else {\n            match data {\n                InnerArray::Owned(mut vec) => Some(vec.swap_remove(if idx + 1 == vec.len() && idx > 2 { idx - 1 } else { idx })),"),
  ("C05","take-counts-bytes", E+"lex.rs", "    let rest = chars.as_str();\n    Ok((span(input, rest), rest))\n}", "    let rest = chars.as_str();\n    let _ = rest;\n    Ok((&input[..expected], &input[expected..]))\n}"),
+ ("C03","call-result-general-path-skips-first", E+"ast/index_expr.rs", "                        _ => {\n                            return TypedArray::default();\n                        }\n                    }\n\n                    TypedArray::from_iter(iter.map(|item| comp.compare(&item, ctx)))", "                        _ => {\n                            return TypedArray::default();\n                        }\n                    }\n\n                    TypedArray::from_iter(iter.skip(1).map(|item| comp.compare(&item, ctx)))"),
+ ("C03","call-result-value-path-absent-is-empty", E+"ast/index_expr.rs", "                        iter.reset(call.execute(ctx).map_err(|_| return_type)?);\n                        Ok(LhsValue::Array(Array::try_from_iter(ty, iter).unwrap()))", "                        iter.reset(call.execute(ctx).map_err(|_| return_type)?);\n                        Ok(LhsValue::Array(Array::try_from_iter(ty, iter.take(3)).unwrap()))"),
 ]
 
 def sh(cmd, cwd=None, timeout=1800):
